@@ -198,3 +198,16 @@ func (r *Rule) VerifActions() []VerifAction {
 	}
 	return out
 }
+
+// VerifTransformationTable returns a copy of the process-wide table that numbers transformation chains:
+// the name of every id and the id of every name.
+func VerifTransformationTable() (idToName []string, nameToID map[string]int) {
+	transformationIDsLock.Lock()
+	defer transformationIDsLock.Unlock()
+	idToName = append([]string{}, transformationIDToName...)
+	nameToID = make(map[string]int, len(transformationNameToID))
+	for k, v := range transformationNameToID {
+		nameToID[k] = v
+	}
+	return
+}
